@@ -1,33 +1,32 @@
-"""Static metadata per property (imported by the driver, which never imports
-audiolazy itself)."""
+"""Static metadata per property, collected from props/cNN_meta.py files (which
+never import audiolazy, so the driver can read them without touching the tree
+under test).  Each cNN_meta.py defines a dict META with keys
+
+  rule         how cases are generated and what makes one distinct/non-trivial
+  assumptions  list of strings (property-specific trusted base)
+  level_text   what assurance the check gives (MANIFEST level_claimed.text)
+  technique    a few words naming the deciding method
+  shards       optional {"quick": n, "thorough": n}
+  soft_s       optional {"quick": s, "thorough": s}  soft per-shard time budget
+  hard_s       optional {"quick": s, "thorough": s}  watchdog (inconclusive)
+"""
+import glob
+import importlib
+import os
 
 COMMON_ASSUMPTIONS = [
   "CPython /venv/bin/python executes the pure-Python library as written; the "
-  "monitors observe only executions of this run",
-  "the reference oracle in props/<id>.py states the property correctly",
+  "monitors observe only the executions of this run",
+  "the independent reference oracle in props/<id>.py states the property "
+  "correctly",
 ]
 
-
-def _m(rule, assumptions=(), shards=None, soft_s=None, hard_s=None,
-       level="exploration"):
-  d = {"rule": rule, "assumptions": COMMON_ASSUMPTIONS + list(assumptions),
-       "level": level}
-  if shards:
-    d["shards"] = shards
-  if soft_s:
-    d["soft_s"] = soft_s
-  if hard_s:
-    d["hard_s"] = hard_s
-  return d
-
-
-META = {
-  "C08": _m(
-    "cases are (variant, items, size, hop, padval) for blocks / Stream.blocks / "
-    "zero_pad: every (len 0..40, size 1..9, hop 1..12) triple enumerated "
-    "completely each run plus random larger triples with heterogeneous items; "
-    "a case is non-trivial when at least one block (or padded item) was "
-    "yielded and compared; distinct = distinct case descriptions (hash of repr)",
-    ["the consumer snapshots each yielded deque before advancing (the deque "
-     "object is reused by design)"]),
-}
+META = {}
+for _path in sorted(glob.glob(os.path.join(os.path.dirname(__file__),
+                                           "c[0-9][0-9]_meta.py"))):
+  _name = os.path.basename(_path)[:-3]
+  _mod = importlib.import_module("props." + _name)
+  _m = dict(_mod.META)
+  _m["assumptions"] = COMMON_ASSUMPTIONS + list(_m.get("assumptions", []))
+  _m.setdefault("level", "exploration")
+  META[_name[:3].upper()] = _m
